@@ -185,7 +185,7 @@ def run_plan(pid, plan, seed, workdir, flags=()):
             a['seed'] = seed
             a['n'] = cnt
             a['first'] = first
-            if item['scen'] == 'urgency':
+            if item['scen'] in ('urgency', 'fixture'):
                 a['first'] = s
             jobs.append((item['scen'], a, os.path.join(workdir, f'{pid}_{k}_{s}.lines'), tuple(flags)))
     paths = []
